@@ -111,6 +111,12 @@ class DynExec(Exec):
             return a.z == b.z      # (identical terms; cross-type equality between two symbolic values not needed)
         return False
 
+    def maybe_unhashable(self, v, st):
+        """condition under which hashing v may raise TypeError: `Other` objects (lists, dicts, sets are among them)"""
+        if isinstance(v, SDyn):
+            return dyn_sort().is_DOther(v.z)
+        return None
+
     def identical_ext(self, a, b, st):
         if isinstance(a, SDyn) and b is None or isinstance(b, SDyn) and a is None:
             return self.eq_ext(a, b, st)
